@@ -128,7 +128,7 @@ def _mutant_files(props):
 
 def mutants(argv):
     props = [a.upper() for a in argv if not a.startswith("-")]
-    budget = os.environ.get("HSIM_MUTANT_BUDGET", "25")
+    budget = os.environ.get("HSIM_MUTANT_BUDGET", "40")
     repo = os.environ.get("VERIF_REPO", "/repo")
     files = _mutant_files(props)
     if not files:
